@@ -1,1 +1,115 @@
-// contract harnesses for trust-runtime/src/bytecode_decode (included by the verification hook)
+// Contract harnesses for crates/trust-runtime/src/bytecode/decode.rs  (C11)
+
+use super::*;
+use crate::bytecode::reader::BytecodeReader;
+use crate::bytecode::util::align4;
+
+// align4: smallest multiple of four >= x
+// @unit id=bc.align4 props=C11 tier=quick kind=proof fn=align4
+#[kani::proof]
+fn bc_align4() {
+    let x: usize = kani::any();
+    kani::assume(x <= usize::MAX - 3);
+    let r = align4(x);
+    assert!(r >= x && r % 4 == 0 && r - x < 4, "align4 rounds up to the next multiple of four");
+    kani::cover!(x % 4 == 1);
+}
+
+// validate_section_entries: Ok  =>  every entry aligned, inside the file, pairwise disjoint --
+// exactly the precondition of the slicing `&bytes[start..end]` in BytecodeModule::decode
+// ("validated means safe" for the framing).
+// @unit id=bc.section_entries props=C11 tier=quick kind=bounded bound="3 section entries, offsets/lengths/file length full domain" timeout=900 fn=validate_section_entries
+#[kani::proof]
+#[kani::unwind(6)]
+fn bc_section_entries() {
+    let file_len: usize = kani::any();
+    let mk = || SectionEntry { id: kani::any(), flags: kani::any(), offset: kani::any(), length: kani::any() };
+    let entries = [mk(), mk(), mk()];
+    let r = validate_section_entries(file_len, &entries);
+    let accepted = matches!(&r, Ok(()));
+    std::mem::forget(r);
+    if accepted {
+        let mut i = 0;
+        while i < 3 {
+            let (s, e) = (entries[i].offset as usize, entries[i].offset as usize + entries[i].length as usize);
+            assert!(entries[i].offset % 4 == 0, "accepted sections are 4-byte aligned");
+            assert!(e <= file_len, "accepted sections lie inside the file: slicing cannot panic");
+            let mut j = 0;
+            while j < 3 {
+                if i != j {
+                    let (s2, e2) = (entries[j].offset as usize, entries[j].offset as usize + entries[j].length as usize);
+                    assert!(e <= s2 || e2 <= s || s == e || s2 == e2, "accepted non-empty sections do not overlap");
+                }
+                j += 1;
+            }
+            i += 1;
+        }
+    }
+    kani::cover!(accepted && entries[0].length > 0 && entries[1].length > 0 && entries[2].offset < entries[0].offset);
+    kani::cover!(!accepted);
+}
+
+// Header: decode of an arbitrary short byte string (no section table entries) is a value or an
+// error -- never a panic -- and is accepted only with the right magic / version / header geometry.
+// @unit id=bc.decode.header props=C11 tier=quick kind=bounded bound="<= 28 arbitrary bytes, section_count = 0, CRC flag clear" timeout=1200 fn=BytecodeModule::decode
+#[kani::proof]
+#[kani::unwind(6)]
+fn bc_decode_header() {
+    let data: [u8; 28] = kani::any();
+    let dlen: usize = kani::any();
+    kani::assume(dlen <= 28);
+    // flags bit 0 (CRC) clear; section_count == 0
+    kani::assume(data[8] & 1 == 0);
+    kani::assume(data[14] == 0 && data[15] == 0);
+    let r = BytecodeModule::decode(&data[..dlen]);
+    let accepted = r.is_ok();
+    let table_off = u32::from_le_bytes([data[16], data[17], data[18], data[19]]) as usize;
+    if accepted {
+        assert!(dlen >= 24 && &data[0..4] == b"STBC", "only the STBC magic is accepted");
+        assert!(u16::from_le_bytes([data[12], data[13]]) >= 24, "header size field covers the header");
+        assert!(table_off >= 24 && table_off % 4 == 0 && table_off <= dlen, "section table lies inside the file, aligned, after the header");
+    }
+    kani::cover!(accepted);
+    kani::cover!(!accepted && dlen >= 24);
+    std::mem::forget(r);
+}
+
+// Hostile counts: a section payload whose leading u32 count is arbitrary must decode to an error
+// (the payload is too short to hold the entries) without requesting memory that is not
+// proportional to the input.  (run with --malloc-fail-assert and an 8 MiB single-allocation limit)
+macro_rules! hostile_section {
+    ($name:ident, $id:expr, $minor:expr) => {
+        #[kani::proof]
+        #[kani::unwind(6)]
+        fn $name() {
+            let data: [u8; 12] = kani::any();
+            let dlen: usize = kani::any();
+            kani::assume(dlen >= 4 && dlen <= 12);
+            let count = u32::from_le_bytes([data[0], data[1], data[2], data[3]]);
+            kani::assume(count > 8);
+            let r = decode_section_data(BytecodeVersion { major: 1, minor: $minor }, $id, &data[..dlen]);
+            let is_err = r.is_err();
+            kani::cover!(count == u32::MAX);
+            kani::cover!(count == 9);
+            std::mem::forget(r);
+            assert!(is_err, "a count that the payload cannot hold is an error");
+        }
+    };
+}
+
+// @unit id=bc.decode.hostile.strings props=C11 tier=quick kind=bounded bound="section payload 4..12 bytes, leading count > 8 (full u32)" flags=alloc timeout=1200 fn=decode_section_data,decode_string_table
+hostile_section!(bc_decode_hostile_strings, 0x0001, 1);
+// @unit id=bc.decode.hostile.types props=C11 tier=quick kind=bounded bound="section payload 4..12 bytes, leading count > 8 (full u32)" flags=alloc timeout=1200 fn=decode_section_data,decode_type_table
+hostile_section!(bc_decode_hostile_types, 0x0002, 1);
+// @unit id=bc.decode.hostile.consts props=C11 tier=quick kind=bounded bound="section payload 4..12 bytes, leading count > 8 (full u32)" flags=alloc timeout=1200 fn=decode_section_data
+hostile_section!(bc_decode_hostile_consts, 0x0003, 1);
+// @unit id=bc.decode.hostile.refs props=C11 tier=thorough kind=bounded bound="section payload 4..12 bytes, leading count > 8 (full u32)" flags=alloc timeout=1200 fn=decode_section_data
+hostile_section!(bc_decode_hostile_refs, 0x0004, 1);
+// @unit id=bc.decode.hostile.pou_index props=C11 tier=thorough kind=bounded bound="section payload 4..12 bytes, leading count > 8 (full u32)" flags=alloc timeout=1200 fn=decode_section_data
+hostile_section!(bc_decode_hostile_pou_index, 0x0005, 1);
+// @unit id=bc.decode.hostile.resource_meta props=C11 tier=thorough kind=bounded bound="section payload 4..12 bytes, leading count > 8 (full u32)" flags=alloc timeout=1200 fn=decode_section_data
+hostile_section!(bc_decode_hostile_resource_meta, 0x0007, 1);
+// @unit id=bc.decode.hostile.io_map props=C11 tier=thorough kind=bounded bound="section payload 4..12 bytes, leading count > 8 (full u32)" flags=alloc timeout=1200 fn=decode_section_data
+hostile_section!(bc_decode_hostile_io_map, 0x0008, 1);
+// @unit id=bc.decode.hostile.types_v0 props=C11 tier=thorough kind=bounded bound="section payload 4..12 bytes, leading count > 8 (full u32), format minor 0" flags=alloc timeout=1200 fn=decode_section_data,decode_type_table
+hostile_section!(bc_decode_hostile_types_v0, 0x0002, 0);
